@@ -44,6 +44,12 @@ CHECKS = {
     'C17': dict(cat='proof', tech='Coq proof on the construction/read-back model + correspondence through the real constructors to depth 10', ref='DESIGN.md section 6, C17',
                 text='Theorems (StackGlueProofs.v, stacks of any depth): constructing from per-layer configurations (outermost first, then the primitive) and reading them back are inverse (configs_of_constructed, rebuild_from_configs), the i-th group read back belongs to the i-th layer from the outside and the groups cover everything. Tie: stacks of depth 1..10 made of layers with same-typed pairwise distinct configurations are built through make_parameter_pack_for and through (configuration, backend) constructors; every configuration is read back through get_configuration() and the get_backend() chain and must equal what was passed in order (independent oracle: the generated tokens); a second field rebuilt from what is reported must have identical configurations, storage, dump bytes and values at sampled coordinates; all compared with the model.',
                 note='The ten generated make_parameter_pack_for overloads are exercised at every depth 1..10, not translated. ' + TB_MODEL + ' Theorems closed under the global context.'),
+    'C03': dict(cat='proof', tech='Coq proof over a commutative ring on the shared arithmetic skeleton + exact-rational oracles and bit-exact Flocq correspondence', ref='DESIGN.md section 6, C03',
+                text='Theorems (LinearProofs.v, LinearBridge.v, LinearReal.v): over ANY commutative ring and every N, the generic branch (bit k of n for axis k, weight 1*w0*w1.., accumulated from 0) and the specialised branches (axis k on bit N-1-k, products and sums left to right) are the N-linear interpolant of the 2^N corner values with weights the products of the per-axis fractions; at a corner it is that corner\'s value; over the reals with fractions in [0,1] it stays within the range of the corner values. These are theorems about LinearCore\'s definitions, which Stack.linear_comp (the executable model) instantiates with IEEE operations; with exact operations linear_comp is proved equal to the interpolant. Tie: linear over a recording probe for N in 1..5 and M in 1..4 independently and all float/double combinations, and over row-major / Morton / Hilbert storage: corner set, lattice exactness, closeness to the exact rational interpolant and range, all judged in exact rationals, plus bit equality with the Flocq model.',
+                note='The forward rounding-error bound used by oracle (c)/(d) is TESTED, not proved (no floating-point error theorem; the lattice-point and cell-selection facts are likewise observed, not proved). M enters only as the number of components treated one by one. ' + TB_MODEL + ' Ring-level theorems are closed under the global context; interp_convex uses the standard real-number axioms.'),
+    'C09': dict(cat='proof', tech='Coq proof over a commutative ring on the shared algebra skeleton + exact-rational oracle and bit-exact Flocq correspondence', ref='DESIGN.md section 6, C09',
+                text='Theorems (AlgebraProofs.v, any commutative ring, every N): affine*vector is A.x+t componentwise (affine_apply_spec); the product of two transforms applied to a vector is the right factor then the left (compose_apply, through the code\'s (N+1)x(N+1) embedding and the associativity of matrix*vector); products of any length act as the composite of their factors; the identity acts as the identity. The affine layer of the executable model is by definition this algebra with IEEE operations (affine_layer_law). Tie: covfie::algebra operators called directly (apply, compose, chains of up to 4, translation / scaling / identity, matrix products) and the affine layer over identity / probe backends, N in 1..4, float and double: exact equality on small-integer operands, a stated tolerance against exact rationals elsewhere, bit equality with the Flocq model in the code\'s summation order.',
+                note='translation / scaling have no Coq theorem yet (checked by the oracle only). The tolerance for non-integer operands is tested, not proved. ' + TB_MODEL + ' Theorems closed under the global context.'),
     'C04': dict(cat='proof', tech='Coq proof (Flocq) + AST-read rounding callee + correspondence at half-integers', ref='DESIGN.md section 6, C04',
                 text='Theorems: rounding to integral with ties to even at the argument\'s own precision is within 1/2 of the argument, for float and for double, for every argument (lrint_half via Bnearbyint_correct / error_le_half_ulp); the layer over an arbitrary backend queries a lattice point every component of which is within 1/2 of the coordinate (nearest_closest, any N); the rounding call the code names on this run, read from clang\'s AST into Gen_Nearest.v, rounds at the coordinate precision for both coordinate types (nn_round_refines: fails to compile for std::lrintf, for which lrintf_on_double_refuted gives the witness 2.5+2^-33). Tie: nearest over identity / probe / array storage, N in 1..4, float and double, at every half-integer up to 64 and one ulp either side, half-integers +- 2^-30, the 2^23 / 2^24 / 2^52 neighbourhoods, judged by an exact-rational oracle and the model.',
                 note='std::lrint / lrintf are modelled (Bnearbyint mode_NE then Btrunc; default rounding mode assumed); the model is validated against the real functions on the correspondence inputs. ' + TB_MODEL + AX_REALS),
